@@ -7,6 +7,7 @@ use crate::reg::Reg;
 #[cfg(feature = "c07")] pub mod c07;
 #[cfg(feature = "c09")] pub mod c09;
 #[cfg(feature = "c08")] pub mod c08;
+#[cfg(feature = "c10")] pub mod c10;
 
 pub fn register(prop: &str, reg: &mut Reg) {
     match prop {
@@ -16,6 +17,7 @@ pub fn register(prop: &str, reg: &mut Reg) {
         #[cfg(feature = "c07")] "C07" => c07::register(reg),
         #[cfg(feature = "c09")] "C09" => c09::register(reg),
         #[cfg(feature = "c08")] "C08" => c08::register(reg),
+        #[cfg(feature = "c10")] "C10" => c10::register(reg),
         _ => { eprintln!("symx: property {} not available in this build", prop); std::process::exit(2); }
     }
 }
